@@ -143,7 +143,12 @@ func bindStr(b core.Bind) string {
 // whose callee name matches one of the dot-suffix names.
 func (r *Run) callsIn(f *ssa.Function, names ...string) []*ssa.Call {
 	var out []*ssa.Call
+	// calls in dead code (`if false && …`, a branch on a constant) are not calls the function makes
+	live := r.E.Facts(f, core.Ctx{}).Live
 	for _, b := range f.Blocks {
+		if live != nil && !live[b] {
+			continue
+		}
 		for _, ins := range b.Instrs {
 			c, ok := ins.(*ssa.Call)
 			if !ok {
